@@ -40,9 +40,13 @@ CHECKS = {
          "fill proved to detect exactly that for every iteration order (floodfill_cycle_any_order); a signal bit with two block drivers (upblk_writes_iff via related_iff_overlap); a net "
          "with two or no outside-driven members (multi_writer_iff, no_writer_iff); an illegal port use — and reports the class of the first such stage (verdict_iff, verdict_class, "
          "legal_accepted); the outcome is invariant under order and orientation of the connect statements. Tied to the code by legal designs, 28 single-defect kinds at random hierarchy "
-         "positions, multi-defect designs and exhaustive small tables, each under several statement orders, comparing the exception class (and [Type k] tag) with model and oracle.",
+         "positions, multi-defect designs and exhaustive small tables, each under several statement orders, comparing the exception class (and [Type k] tag) with model and oracle. Operator placement is inside the model: Model/Place.lean (names bound in a block, constant "
+         "vs variable index, kept vs dropped slice, the objs / part_objs walk, operator rules per block kind and inside @s.func helpers, flip-flop marking) and Props/C09p.lean prove the decision table total, "
+         "that a `<<=` accepted in update_ff assigns whole top-level signals or whole list elements and conversely (ff_accept_whole, ff_whole_accepted), that for every run-time index value the element "
+         "assigned is in the recorded object set (static_covers_dynamic) and that a name bound anywhere in the block is a variable index whatever module-level names exist; tied to the code by an operator x "
+         "target-shape x block-kind x binding-form stream comparing verdict class, recorded objects and marks, with SIMULATION of every accepted write (an accepted write must take effect).",
          "The decision tables (operators, SignalTypeError Types 1-9, loop-back) are modelled from the code, not derived; block-order independence is by correspondence; duplicate "
-         "connections are merged by the code (quirk, proved as dup_is_no_loop); `+=` in an update block raises TypeError (outside the property's operator set).",
+         "connections are merged by the code (quirk, proved as dup_is_no_loop); inside @s.func helpers only the part-select rule of <<= and the cross-kind operator rule apply (a helper using `=` elaborates: kept quirk).",
          "Lean 4 proof (hierarchical checks <=> bit-level defect predicate; cycle detection for every iteration order) + single-defect injection correspondence", "DESIGN.md §5 C09"),
  'C10': ("Lean 4 proof over an executable model of the RTLIR behavioural type checker (visitor + enforcer, Model/TC.lean) and of Python/PythonBits evaluation (Model/PyEval.lean): on every "
          "accepted clean update block the static width of every sub-expression equals the run-time nbits (width_sound, width_sound_subexpr, explicit_final_width), simulation raises no "
@@ -84,11 +88,18 @@ CHECKS = {
          "environment assumption is an explicit predicate shown satisfiable (env_assumption_satisfiable, runs_satisfiable). The model is tied to the real ProcRTL by cycle-exact comparison of "
          "17 outputs and a 175-entry state digest on every cycle of every run (from power-on, through resets in mid-run), AND by a translator: tools/py2lean_pipe.py regenerates "
          "Gen/PipeGen.lean (168 definitions) from the update blocks, constants, instances and connections of ProcCtrlRTL / ProcDpathRTL / MiscRTL on every run and Props/C20pGen.lean proves 129 "
-         "generated = model obligations (every control equation, register update, the decode table, ALU, immediate generator, mux orders, drop unit, wiring). PARTIAL: ProcFL, ProcCL and the FL/CL/RTL adapters (sources, sinks, "
-         "test memory) are related to the ISA by differential execution of random terminating programs (hazards, load-use, store-load, branches, csr) under random memory latency, stall and "
-         "src/sink delays only; the pipeline theorems are safety statements (prefix of the ISA execution), termination / liveness is observed, not proved.",
+         "generated = model obligations (every control equation, register update, the decode table, ALU, immediate generator, mux orders, drop unit, wiring). ProcFL is inside the model by a translator as well: tools/py2lean_procfl.py regenerates Gen/ProcFLGen.lean from tinyrv0_encoding.py (TinyRV0Inst accessors, "
+         "name decode, RegisterFile) and ProcFL.py (up_ProcFL executed symbolically over an interface structure) on every run; Props/C20fGen.lean proves for all 32-bit words that every accessor is the "
+         "model's field and the name decode is the model's decode (gen_name_eq), and for EVERY state that one execution of up_ProcFL is exactly one ISA step wherever the ISA is defined "
+         "(gen_procfl_step_eq; it stalls, raises or stands still exactly where the ISA stops), hence n executions = n ISA steps (gen_procfl_run_eq) and the ISA theorems hold of ProcFL as written now; "
+         "the FL memory interface is the byte memory of C18 (readN_c18 / writeN_c18). ProcCL: Gen/ProcCLGen.lean holds its blocks F / DXM / W over an environment of 28 queue and interface "
+         "functions; Props/C20cGen.lean proves every branch for an ARBITRARY environment (ALU values, request formation, branch decision and target, CSR handling, write-back, stalls) and that in "
+         "the ideal zero-latency environment DXM-then-W is one ISA step and rounds DXM; W; F are the ISA for whole programs (gen_proccl_exec_eq, gen_proccl_run_eq). PARTIAL: ProcCL's cycle-level "
+         "timing (block schedule, queue delays, stalls, memory latency) and the FL/CL/RTL adapters (sources, sinks, test memory) are related to the ISA by differential execution of random terminating "
+         "programs (hazards, load-use, store-load, branches, csr) under random memory latency, stall and src/sink delays only; the pipeline theorems are safety statements (prefix of the ISA execution), termination / liveness is observed, not proved.",
          "Proof covers the ISA model, encoding, checksum algorithms and the five-stage pipeline (control invariants + refinement to the ISA for all programs and timings, under the stated "
-         "in-order-memory environment predicate, no self-modifying code). ProcFL / ProcCL and the adapters rest on differential testing only. "
+         "in-order-memory environment predicate, no self-modifying code). ProcFL: translator + step equality (the translator's rendering is itself run natively against the Python on every program); ProcCL: every block branch proved, "
+         "its timing and the adapters rest on differential testing. "
          "xcel CSRs and illegal instructions are out of scope. ProcCL does not commit nops, so its commit count is compared modulo nops.",
          "Lean 4 proof (ISA model, encoding bijection, checksum equivalence) + differential execution of the three processors (partial)", "DESIGN.md §5 C20"),
  'C06': ("Lean 4 proofs over a hand-written executable model of the methods generated by @bitstruct/mk_bitstruct. For every type shape (nested structs, multi-dimensional list "
@@ -132,7 +143,12 @@ CHECKS = {
          "refines_trace). From that: delivered is a prefix of accepted with at most capacity messages inside, count / num_free_entries exact, and the three ready/valid laws stated "
          "outright. For enrdy BypassQueue2RTL FIFO order, count and the dequeue law are proved and the enqueue-ready law is shown false (known finding). Models tied to the real "
          "classes by differential simulation (random legal histories for all classes x capacities {1,2,3,4,5,7,8} x 2 message types, exhaustive state x offer enumeration for n <= 2 "
-         "quick / n <= 4 thorough) plus an independent FIFO-ledger oracle. Translator tie: tools/py2lean_queue.py regenerates Gen/QueueGen.lean (283 definitions, parametric in the capacity n and the entry type) from the update blocks, constants and wiring of the four RTL queue files on every run and Props/C17Gen.lean proves 247 generated = model obligations for all n.",
+         "quick / n <= 4 thorough) plus an independent FIFO-ledger oracle. Translator tie: tools/py2lean_queue.py regenerates Gen/QueueGen.lean (283 definitions, parametric in the capacity n and the entry type) from the update blocks, constants and wiring of the four RTL queue files on every run and Props/C17Gen.lean proves 247 generated = model obligations for all n. "
+         "Queues reached through the level adapters: Model/QAdapter.lean models message objects as heap cells and Props/C17a.lean (15 theorems) proves, for all kinds, capacities and offer / stall "
+         "histories, that the repaired RecvRTL2SendCL in front of a CL queue is exactly that queue (zero latency, r2c_refines / r2c_fifo), that the queue's objects are pairwise distinct and never "
+         "the live signal (r2c_owned, r2c_mutation_frame), a Lean counter-example for the aliased adapter of the pinned tree (aliased_loses_messages), that RecvCL2SendRTL is a bypass(1) place and "
+         "composes with every queue class machine (c2r_class_refines), and the ledger law for chains (chain_fifo); tied to the code cycle by cycle on two topologies (incl. the object-identity "
+         "pattern) and by a value ledger + ownership oracle on pipelines of 1-3 mixed queues through every usable stdlib adapter with producers that rewrite one object in place.",
          "Models hand-transcribed (RegisterFile/Mux/Reg inline); CL same-cycle order hard-coded from the method constraints and checked only by execution under the real scheduler; "
          "FIFO clauses stated between resets (messages accepted during a reset cycle by ungated families are dropped, as the code does); valrdy_queues.py runs only with two interface "
          "classes injected by the harness (the module is unimportable as shipped: recorded as a note); known finding C17-bypass2-enq-rdy-bubble.",
@@ -142,12 +158,15 @@ CHECKS = {
          "store and each port's in-order response stream equal the sequential specification applied to the processing order (cl_timing_independent, rtl_timing_independent), that "
          "processed requests are a prefix of the request stream with type/opaque echoed, that each delay pipe is FIFO under any history, that every byte read is the latest earlier "
          "store covering it (read_latest, image_latest) and that AMOs return the old value and store op(old,arg) mod 2^(8k). Single-port and disjoint-region corollaries show contents "
-         "are independent of timing outright. The correspondence check runs MagicMemoryFL, MagicMemoryCL and stream MagicMemoryRTL under random timing configurations, records the real "
+         "are independent of timing outright. AMOs carry a byte count like reads and writes (sub-word AMOs, repaired in /repo this round): amo_spec / amo_old_new / amo_low_bytes_only / "
+         "amo_full_width state that the operation acts at width 8*len on the low len bytes of the data field, answers the old bytes zero-extended and leaves every other byte alone; "
+         "tools/py2lean_mem.py also cuts the request-handling glue out of up_mem of both memories and Props/C18Gen.lean proves the READ / WRITE / AMO branches re-composed from generated "
+         "pieces equal to the model's service step (gen_up_mem_read_eq / write_eq / amo_eq). The correspondence check runs MagicMemoryFL, MagicMemoryCL and stream MagicMemoryRTL under random timing configurations, records the real "
          "processing order and every stall/source/sink decision, and compares responses and final image with seqSpec, with an independent byte-dict oracle, and cycle-accurately with "
          "the system models driven by the recorded decisions.",
          "Full system theorem proved for both CL and RTL models. Modelled, not verified: per-cycle block order of the CL model; the RTL model's clock edge taken right after each "
-         "up_mem iteration; sources, sinks and stall RNG abstracted as arbitrary streams. Out of scope: INV/FLUSH/other message types, addresses beyond mem_nbytes, sub-word AMOs "
-         "(they raise a width error today; recorded as an observation).",
+         "up_mem iteration; sources, sinks and stall RNG abstracted as arbitrary streams. Out of scope: INV/FLUSH/other message types, addresses beyond mem_nbytes. Trusted: the source slicer of "
+         "py2lean_mem.py and the hand-written composition of a branch (dispatch on the type, echo of type / opaque / len).",
          "Lean 4 proof (system invariant over arbitrary environment streams) + cycle-accurate differential correspondence", "DESIGN.md §5 C18"),
  'C19': ("Lean 4 proof over a block-by-block model of RoundRobinArbiter and RoundRobinArbiterEn with the RegEnRst(reset_value=1) pointer register, for every nreqs, "
          "request vector and input history: the pointer is one-hot in every state reachable through a reset (onehot_inv/onehot_history); the grant vector is zero or "
@@ -195,9 +214,21 @@ CHECKS = {
          "and Props/C02c.lean proves for every call graph that a block's expanded set is exactly its own accesses plus those of every function reachable from its calls (expand_exact), that "
          "the expansion raises iff a reachable function lies on a call cycle, and that the accumulating loop gives every block the same entry in every order and from any earlier state "
          "(fold_entry_eq, fold_perm, expand_local); tied to the code by reading the per-component tables before and the expanded sets after _collect_vars, with a direct oracle from an own "
-         "AST walk and from sys.setprofile on the running blocks. PARTIAL: OpenLoopCLPass is not modelled.",
-         "Trusted: as C01; explicit U<U constraints are handled by the harness oracle (python), not by the Lean model; blocking FL interfaces / greenlets and OpenLoopCLPass outside the model.",
-         "Lean 4 proof (verified schedule checker, Kahn with arbitrary oracle) + differential correspondence check", "DESIGN.md §5 C02"),
+         "AST walk and from sys.setprofile on the running blocks. The production of those tables from SOURCE is inside the model too: Model/AstRW.lean models DetectReadsWritesCalls "
+         "(_get_full_name, enter, every visit_*, generic_visit) and extract_obj_from_names over a snapshot of the component; Props/C02a.lean proves, against an execution semantics in which "
+         "every branch outcome, loop count, else clause and run-time index value is an execution, that every path read, assigned or called by any execution is matched by a recorded name "
+         "(complete_partial, exec_complete), that the real lookup yields the object reached or one it is part of (objects_covered), soundness, that for-else / elif / every child is visited, "
+         "and determinism; tied to the code on the real ASTs of generated designs, 78 library designs, shape families and all 212 decorated functions of stdlib / examples, with an own "
+         "statement-level tracer as direct oracle. OpenLoopCLPass is inside the model: Model/OpenLoop.lean models schedule_with_top_level_callee (method -> port -> rdy-guard translation, "
+         "the edges Kosaraju does not see, the worklist sort, the assert, the ffs layout) and the run-time protocol of the method wrappers and sim_reset; Props/C02o.lean (26 theorems) proves "
+         "the schedule a partition with every inter-SCC edge forward, the assert failing iff an SCC is left over, that the wrappers reject and reorder nothing, that cycles are the maximal "
+         "ascending runs of the call sequence, each executing a sublist of the one static schedule with every block exactly once, and hence that constraint edges and writer-before-reader "
+         "(through C02d) hold at run time for EVERY sequence of top-level method calls (constraint_order_at_runtime, writer_before_reader_at_runtime); tied to the code by exact comparison "
+         "of the installed schedule, wrapper indices, profiled execution order of random call sequences and cycle counts.",
+         "Trusted: as C01; explicit U<U constraints are handled by the harness oracle (python), not by the Lean model; in the OpenLoop model a non-trivial SCC is one schedule entry (inner "
+         "iteration: C11) and a CalleePort inside a non-trivial SCC is outside the model (the real pass crashes there); AST -> S-expression conversion, heap snapshot and tracer of the AstRW "
+         "stream are trusted glue. Known finding C02-lambda-name-collision.",
+         "Lean 4 proof (verified schedule checker, Kahn with arbitrary oracle, models of GenDAGPass / call expansion / AST extraction / OpenLoopCLPass) + differential correspondence check", "DESIGN.md §5 C02, §9.7"),
  'C07': ("Lean 4 theorems over the double-buffer model: the shadow buffer after the ff phase is the same for every permutation of the update_ff blocks (ff_perm, "
          "tick_ff_perm, via pairwise commutation), the ff phase leaves all current values untouched (ff_reads_pre_edge), an unassigned register holds, the last "
          "executed assignment wins (last_wins), the flip changes exactly the register bits together (edge) and shadow = value at every cycle boundary "
@@ -205,7 +236,8 @@ CHECKS = {
          "the generated flip function covers every double-buffered signal exactly once (grouping_perm, mem_grouping, grouping_nodup), addresses each relative to a component it "
          "lives under (grouping_prefix) and that the loop terminates independently of the fuel (grouping_settled, grouping_fuel). Tie to the code: register-heavy designs under "
          "five pass groups and forced permutations of schedule_ff with probes between the ff blocks; the generated double_buffer source of these designs and of random component "
-         "trees (depth 0-4) parsed and compared with the model grouping, plus a direct oracle (flipped set = needs_double_buffer set = signals written by update_ff).",
+         "trees (depth 0-4) parsed and compared with the model grouping, plus a direct oracle (flipped set = needs_double_buffer set = signals written by update_ff). The operator-placement model of C09 (Props/C09p.lean: an accepted `<<=` assigns "
+         "whole signals, the recorded set covers every run-time element, so it is marked double-buffered) is registered here too, with its stream simulated under two pass groups per case.",
          "Trusted: as C01; registers are Bits-typed in the generator (struct registers are bit ranges of one signal in the model).",
          "Lean 4 proof + differential correspondence check", "DESIGN.md §5 C07"),
  'C11': ("Lean 4 theorems about the SCC super-block model: a returned state is a fixed point of every block of the group when the watch list covers the "
